@@ -144,6 +144,56 @@ def _unescape_tla(s):
     return s.replace('\\"', '"').replace('\\\\', '\\')
 
 
+class _Done:
+    def __init__(self, rc, out):
+        self.returncode, self.stdout = rc, out
+
+
+def _cpu_seconds(pid):
+    try:
+        f = open("/proc/%d/stat" % pid).read().rsplit(")", 1)[1].split()
+        return (int(f[11]) + int(f[12])) / float(os.sysconf("SC_CLK_TCK"))
+    except (OSError, IndexError, ValueError):
+        return None
+
+
+def _run_watched(cmd, d, env, timeout, what, stall=150, retries=2):
+    """Run TLC with a wall-clock time-out AND a stall watchdog: a TLC whose queue-writer thread has died (seen once under heavy load:
+    every worker blocked on the state queue, the JVM alive and idle) would otherwise sit there until the time-out.  A process that uses
+    no CPU at all for `stall` seconds is killed and the (deterministic) run is repeated with a fresh metadir, at most `retries` times."""
+    for attempt in range(retries + 1):
+        outp = os.path.join(d, "tlc_stdout_%d.txt" % attempt)
+        shutil.rmtree(os.path.join(d, "meta"), ignore_errors=True)
+        with open(outp, "w") as fh:
+            p = subprocess.Popen(cmd, cwd=d, env=env, stdout=fh, stderr=subprocess.STDOUT)
+            t0 = time.time()
+            last_cpu, last_change = _cpu_seconds(p.pid), time.time()
+            stalled = False
+            while True:
+                try:
+                    p.wait(timeout=5)
+                    break
+                except subprocess.TimeoutExpired:
+                    pass
+                now = time.time()
+                if now - t0 > timeout:
+                    p.kill()
+                    p.wait()
+                    raise Broken("TLC timed out after %ss on %s" % (timeout, what))
+                c = _cpu_seconds(p.pid)
+                if c is None or last_cpu is None or c - last_cpu >= 0.5:
+                    last_cpu, last_change = c, now
+                elif now - last_change > stall:
+                    stalled = True
+                    p.kill()
+                    p.wait()
+                    break
+        if not stalled:
+            return _Done(p.returncode, open(outp, errors="replace").read())
+        log("  TLC on %s used no CPU for %d s (hung JVM): killed, attempt %d" % (what, stall, attempt + 1))
+    raise Broken("TLC hung %d times on %s" % (retries + 1, what))
+
+
 def run_tlc(module, cfg, files=None, workers=None, timeout=600, simulate=None, depth=None,
             tlc_seed=None, extra=None, data=None, want_vecs=True, deque=False, coverage=False,
             keep=False, xss="256m", heap=None, gc="serial"):
@@ -184,11 +234,7 @@ def run_tlc(module, cfg, files=None, workers=None, timeout=600, simulate=None, d
         env = dict(os.environ)
         env.pop("JAVA_TOOL_OPTIONS", None)
         t0 = time.time()
-        try:
-            p = subprocess.run(cmd, cwd=d, env=env, stdout=subprocess.PIPE, stderr=subprocess.STDOUT,
-                               text=True, timeout=timeout)
-        except subprocess.TimeoutExpired:
-            raise Broken("TLC timed out after %ss on %s/%s" % (timeout, module, cfg))
+        p = _run_watched(cmd, d, env, timeout, "%s/%s" % (module, cfg))
         r = TLCResult()
         r.wall = time.time() - t0
         r.rc = p.returncode
